@@ -47,6 +47,7 @@ def run_stat(
         total_perfect = 0
 
     reads = {}
+    alignment_count = 0  # a GAF without records has none
     gaf_file = GAF(gaf_path)
     for alignment_count, mapping in enumerate(gaf_file.read_file(), 1):
         # hashed_readname = hash(mapping.query_name)
@@ -125,7 +126,11 @@ def run_stat(
     print("\tSecondary:", total_secondary, file=output)
     print("Reads with at least one alignment:", len(reads), file=output)
     print("Total aligned bases:", str(total_aligned_bases), file=output)
-    print("Average mapping quality:", round((total_mapq / alignment_count), 1), file=output)
+    print(
+        "Average mapping quality:",
+        round((total_mapq / alignment_count), 1) if alignment_count else 0.0,
+        file=output,
+    )
     # print("Average total sequence identity:", round(avg_total_seq_identity, 2), file=output)
     print("Average highest sequence identity:", round(avg_highest_seq_identity, 3), file=output)
     # print("Average total map ratio:", round(avg_total_map_ratio,2), file=output)
